@@ -133,16 +133,16 @@ func TestRenderDamageAndStrip(t *testing.T) {
 				t.Fatalf("named fragment %s not both defined and spread: %s", n.Name, text)
 			}
 		}
-		d := chooseDamage(r, doc)
+		d := chooseDamage(r, a, doc)
 		dt := render(a, doc, d)
 		if dt == text || d.desc == "" {
 			t.Fatalf("damage %d not applied: %s", d.kind, dt)
 		}
 		// exactly one damage: removing it gives the original back for the additive kinds
-		if d.kind != dmgMissingSub && len(dt) <= len(text) {
+		if d.apply != dmgMissingSub && len(dt) <= len(text) {
 			t.Fatalf("additive damage did not grow the query: %s -> %s", text, dt)
 		}
-		if d.kind == dmgMissingSub {
+		if d.apply == dmgMissingSub {
 			// every fragment definition that remains is still spread somewhere
 			for _, n := range doc.Named {
 				def := strings.Contains(dt, "fragment "+n.Name+" on")
